@@ -355,32 +355,76 @@ Proof.
   rewrite argv_clause, path_clause, profile_clause, tracing_clause, timers_clause; auto.
 Qed.
 
-(* ---- what holds of the tree as it is ----------------------------------------------------------- *)
-Theorem restores_partial cfg s rs :
-  tracing_ok s (exec_runs cfg s rs) = true
-  /\ (ref (path s) = cap (path s) -> no_exception cfg s rs = true -> path_ok s (exec_runs cfg s rs) = true)
-  /\ (no_interval rs = true -> timers_ok s (exec_runs cfg s rs) = true).
-Proof.
-  split; [apply tracing_clause|]. split.
-  - intros H1 H2. apply path_clause; auto.
-  - intros H. apply timers_clause; auto.
-Qed.
+(* ---- the tree as it is (after the four repairs) satisfies all of C19 --------------------------- *)
+Theorem restores_current : C19_statement current.
+Proof. apply restores_if_fixed; reflexivity. Qed.
+
+(* one call of main, whichever way it ends *)
+Corollary restores_current_run s o p :
+  usable (gp s) = true -> restored s (snd (main current o p s)) = true.
+Proof. intros U. exact (restores_current s [(o, p)] U). Qed.
 
 Definition opts_timed : Opts := mkOpts true false false None 1 ["prog.py"] "" "/T".
 
+(* ---- every one of the four repairs is necessary: a main lacking it violates its clause ---------- *)
+Lemma argv_needs_repair cfg :
+  fx_at_call cfg = false -> fx_argv_inplace cfg = false ->
+  exists s o p, usable (gp s) = true /\ fst (main cfg o p s) = Returned
+                /\ argv_ok s (snd (main cfg o p s)) = false
+                /\ cur (argv (snd (main cfg o p s))) = o_new_argv o.
+Proof.
+  destruct cfg as [a b c d e f]. cbn. intros -> ->. exists st0, opts0, returns.
+  destruct c, d, e, f; vm_compute; repeat split; reflexivity.
+Qed.
+
+Lemma path_needs_finally cfg :
+  fx_finally cfg = false ->
+  exists s o p, usable (gp s) = true /\ ref (path s) = cap (path s) /\ p_outcome p = Exc
+                /\ fst (main cfg o p s) = Raised
+                /\ path_ok s (snd (main cfg o p s)) = false
+                /\ cur (path (snd (main cfg o p s))) = o_script_dir o :: cur (path s).
+Proof.
+  destruct cfg as [a b c d e f]. cbn. intros ->. exists st0, opts0, raises.
+  destruct a, b, d, e, f; vm_compute; repeat split; reflexivity.
+Qed.
+
+Lemma profile_needs_repair cfg :
+  fx_profile cfg = false ->
+  exists s o p, usable (gp s) = true /\ undecided (gp s) = true
+                /\ profile_ok s (snd (main cfg o p s)) = false
+                /\ decorate (gp (snd (main cfg o p s))) (fun _ => None) [] (Fn 0) = Err TypeError.
+Proof.
+  destruct cfg as [a b c d e f]. cbn. intros ->. exists st0, opts0, returns.
+  destruct a, b, c, e, f; vm_compute; repeat split; reflexivity.
+Qed.
+
+Lemma timer_needs_repair cfg :
+  fx_timer cfg = false ->
+  exists s o p, usable (gp s) = true /\ 0 < o_interval o
+                /\ timers_ok s (snd (main cfg o p s)) = false
+                /\ timers (snd (main cfg o p s)) = timers s + 1.
+Proof.
+  destruct cfg as [a b c d e f]. cbn. intros ->. exists st0, opts_timed, returns.
+  destruct a, b, c, d, f; vm_compute; repeat split; reflexivity.
+Qed.
+
+(* in particular the tree before the repairs violated C19 *)
+Lemma unrepaired_refuted : ~ C19_statement unrepaired.
+Proof.
+  intros H. specialize (H st0 [(opts0, returns)] eq_refl). vm_compute in H. discriminate.
+Qed.
+
 (* ---- non-vacuity ---------------------------------------------------------------------------- *)
-Definition all_fixed : Fixes := mkFixes false true true true true true.
 Definition opts_module : Opts := mkOpts true false true (Some "/T/setupd") 1 ["mod"; "x"] "" "/T".
 
 Example nonvacuous :
-  (* hypotheses of the partial theorem hold of a real-looking run, with its result *)
-  usable (gp st0) = true /\ ref (path st0) = cap (path st0)
-  /\ no_exception current st0 [(opts0, returns); (opts_module, mkProg SysExit true true true)] = true
-  /\ path_ok st0 (exec_runs current st0 [(opts0, returns); (opts_module, mkProg SysExit true true true)]) = true
-  /\ no_interval [(opts0, raises)] = true
-  (* the repaired behaviour restores everything on the runs that refute the present one *)
-  /\ restored st0 (exec_runs all_fixed st0 [(opts0, returns); (opts0, raises); (opts_timed, returns);
-                                            (opts_module, mkProg Exc true true true)]) = true
+  (* the hypothesis of the statement holds of a real-looking interpreter *)
+  usable (gp st0) = true
+  (* the present behaviour restores everything on the runs that refuted the unrepaired one *)
+  /\ restored st0 (exec_runs current st0 [(opts0, returns); (opts0, raises); (opts_timed, returns);
+                                           (opts_module, mkProg Exc true true true)]) = true
+  /\ restored st0 (exec_runs unrepaired st0 [(opts0, returns)]) = false
+  /\ fst (main current opts0 raises st0) = Raised
   (* during the run the pieces really are changed (the model is not the identity) *)
   /\ cur (path (snd (main_body current opts_module (mkProg Return true false true) st0)))
      = ["/T/setupd"; "/T"; "/lib"; "/prog-added"]
